@@ -11,7 +11,7 @@ FACTOR = 1.20205
 
 class Send(object):
     __slots__ = ("i", "topic", "key", "msgs", "d", "fired", "result", "cancelled", "t_send", "t_fired",
-                 "first_wire_step", "wire_steps", "acked", "step_fired", "raised", "call_steps")
+                 "first_wire_step", "wire_steps", "acked", "step_fired", "raised", "call_steps", "cancel_step")
 
     def __init__(self, i, topic, key, msgs):
         self.i = i
@@ -30,6 +30,7 @@ class Send(object):
         self.step_fired = None
         self.raised = None
         self.call_steps = []
+        self.cancel_step = None
 
 
 class ProducerWorld(ClientWorld):
@@ -435,3 +436,236 @@ class ProducerWorld(ClientWorld):
 
     def nontrivial(self):
         return self.reacted or any(s.cancelled for s in self.sends) or self.stop_called_step is not None
+
+
+class BatchWorld(ProducerWorld):
+    """C19: batching thresholds, time limit, cancellation and stop, explored breadth-first.
+
+    The client is warmed up (metadata cached, discovery off) so that a dispatch is visible at the
+    producer->client seam in the same step as the event that caused it.  App operations come from an
+    alphabet (not a script): every enabled one is explored in every state.
+    cfg: producer={batch_every_n,b,t}, sizes=[...], max_sends, max_cancels, err (bool)
+    """
+
+    PROP = "C19"
+
+    def setup(self):
+        self.cfg = dict(self.cfg)
+        prod = dict(self.cfg.get("producer", {}))
+        if "unbatched" not in prod:
+            prod["batch_send"] = True
+        prod.pop("unbatched", None)
+        prod.setdefault("max_req_attempts", 2)
+        self.cfg["producer"] = prod
+        ProducerWorld.setup(self)
+        self.PROP = "C19"
+        self.n = 1 if not prod.get("batch_send") else prod.get("batch_every_n", 0)
+        self.b = 1 if not prod.get("batch_send") else prod.get("batch_every_b", 0)
+        self.t = None if not prod.get("batch_send") else prod.get("batch_every_t", 0)
+        self.seam_pending = 0
+        self.dispatch_steps = []
+        self.tick_this_step = False
+        self.cancels = 0
+        self.nsends = 0
+        self.dispatched_sends = set()
+        # warm-up prelude: load metadata with the default schedule
+        d = self.client.load_metadata_for_topics("t")
+        d.addErrback(lambda f: None)
+        guard = 0
+        while True:
+            io = [x for x in self.io_events() if x[1] == Z]
+            if not io:
+                break
+            ClientWorld.apply(self, io[0][0])
+            guard += 1
+            assert guard < 20
+        self.trace = []
+        self.step = 0
+        orig = self.client.send_produce_request
+        world = self
+
+        def counted(payloads=None, *a, **kw):
+            world.seam_pending += 1
+            world.dispatch_steps.append(world.step)
+            d = orig(payloads, *a, **kw)
+
+            def done(res):
+                world.seam_pending -= 1
+                return res
+            d.addBoth(done)
+            return d
+        self.client.send_produce_request = counted
+        self.meta_pending = 0
+        orig_meta = self.client.load_metadata_for_topics
+
+        def meta(*topics):
+            # the producer resolves partitions through this public method before handing a batch to the client
+            world.meta_pending += 1
+            d = orig_meta(*topics)
+
+            def done(res):
+                world.meta_pending -= 1
+                return res
+            d.addBoth(done)
+            return d
+        self.client.load_metadata_for_topics = meta
+
+    # ---- alphabet
+    def enabled(self):
+        if self.stopped:
+            return []
+        en = []
+        for lab, c in self.io_events():
+            if lab.startswith("reply") or lab.startswith("accept") or lab.startswith("closed"):
+                en.append((lab, c))
+        if self.clock.pending():
+            en.append(("timer", Z))
+        if self.stop_called_step is None:
+            if self.nsends < self.cfg.get("max_sends", 4):
+                for k in range(len(self.cfg.get("sizes", ["1", "12", "1+6"]))):
+                    en.append(("app:send:%d" % k, Z))
+            if self.cancels < self.cfg.get("max_cancels", 2):
+                pend = [s for s in self.sends if s.d is not None and not s.fired]
+                picks = []
+                if pend:
+                    picks.append(pend[0])
+                    if pend[-1] is not pend[0]:
+                        picks.append(pend[-1])
+                for s in picks:
+                    en.append(("app:cancel:%d" % s.i, Z))
+            if self.cfg.get("stop", True):
+                en.append(("app:stop", Z))
+        return en
+
+    def apply(self, label):
+        self.tick_this_step = False
+        self.pre_queue = self.model_queue()
+        self.pre_inflight = self.inflight()
+        if label.startswith("app:"):
+            self.trace.append(label)
+            parts = label.split(":")
+            try:
+                if parts[1] == "send":
+                    spec = self.cfg.get("sizes", ["1", "12", "1+6"])[int(parts[2])]
+                    msgs = []
+                    for j, piece in enumerate(spec.split("+")):
+                        if piece == "N":
+                            msgs.append(None)
+                        else:
+                            tag = "s%d.%d:" % (self.nsends, j)
+                            n = int(piece)
+                            msgs.append((tag + "x" * n)[:max(n, 1)] if n < len(tag) else tag + "x" * (n - len(tag)))
+                    self.nsends += 1
+                    self.do_app(["send", "t", "k%d" % self.nsends, msgs])
+                elif parts[1] == "cancel":
+                    self.cancels += 1
+                    self.do_app(["cancel", int(parts[2])])
+                elif parts[1] == "stop":
+                    self.do_app(["stop"])
+            except Exception as e:
+                import traceback
+                self.on_reactor_error(label, e, traceback.format_exc())
+            self.on_event(label)
+        else:
+            if label == "timer":
+                nxt = self.clock.pending()[0]
+                name = getattr(nxt.func, "__qualname__", "") or repr(nxt.func)
+                self.tick_this_step = "LoopingCall" in name
+            ClientWorld.apply(self, label)
+
+    # ---- reference model (recomputed from scratch every step)
+    def model_queue(self):
+        """Sends accepted, not cancelled, never handed to the client."""
+        return [s for s in self.sends if s.d is not None and not s.call_steps and not (s.fired and not s.call_steps)]
+
+    def threshold_met(self, queue):
+        cnt = sum(len(s.msgs) for s in queue)
+        byt = sum(len(m) for s in queue for m in s.msgs if m is not None)
+        return bool((self.n and self.n <= cnt) or (self.b and self.b <= byt))
+
+    def inflight(self):
+        if self.seam_pending or self.meta_pending:
+            return True
+        for c in self.clock.pending():
+            name = getattr(c.func, "__qualname__", "") or repr(c.func)
+            if name.startswith("Deferred.callback"):
+                return True
+        return False
+
+    def check_step(self, label):
+        ProducerWorld.check_step(self, label)
+        dispatched_now = [st for st in self.dispatch_steps if st == self.step]
+        new_now = [s for s in self.sends if s.call_steps and s.call_steps[0] == self.step]
+        if self.stop_called_step is not None:
+            if dispatched_now and self.step > self.stop_called_step:
+                self.viol("stop", "dispatch-after-stop", "a batch was handed to the client after stop()")
+            return
+        queue = self.model_queue()
+        # P1: a new batch only when nothing was in flight before this event (or the in-flight batch resolved in it)
+        # P3: dispatch must be justified
+        if new_now:
+            justified = self.tick_this_step or self.threshold_met(new_now + queue)
+            if not justified:
+                self.viol("threshold", "dispatch-below-thresholds",
+                          "sends %r were dispatched with %d messages / %d bytes queued, thresholds n=%r b=%r, no "
+                          "timer tick (schedule %r)" % (
+                              [s.i for s in new_now], sum(len(s.msgs) for s in new_now),
+                              sum(len(m) for s in new_now for m in s.msgs if m is not None), self.n, self.b,
+                              self.trace[-8:]))
+            # a dispatch takes the whole queue
+            if queue:
+                self.viol("threshold", "dispatch-leaves-queued-sends-behind",
+                          "dispatch of %r left sends %r queued" % ([s.i for s in new_now], [s.i for s in queue]))
+        # P2/P4: must dispatch when nothing is in flight and (threshold met or tick)
+        if queue and not self.inflight():
+            if self.threshold_met(queue):
+                self.viol("threshold", "threshold-met-nothing-in-flight-not-dispatched",
+                          "sends %r are queued (%d msgs, %d bytes >= thresholds n=%r b=%r), no batch is in flight, "
+                          "yet nothing was dispatched (schedule %r)" % (
+                              [s.i for s in queue], sum(len(s.msgs) for s in queue),
+                              sum(len(m) for s in queue for m in s.msgs if m is not None), self.n, self.b,
+                              self.trace[-8:]))
+            elif self.tick_this_step:
+                self.viol("time-limit", "tick-with-queue-not-dispatched",
+                          "the batch timer ticked with sends %r queued and nothing in flight, yet nothing was "
+                          "dispatched" % ([s.i for s in queue],))
+        # P6: a send cancelled before dispatch never reaches the client
+        for s in self.sends:
+            if s.cancelled and s.call_steps and s.cancel_step is not None and s.call_steps[0] > s.cancel_step:
+                self.viol("cancel", "cancelled-send-transmitted",
+                          "send %d was cancelled at step %d before dispatch but handed to the client at step %d" % (
+                              s.i, s.cancel_step, s.call_steps[0]))
+
+    def do_app(self, op):
+        if op[0] == "cancel":
+            s = self.sends[op[1]]
+            s.cancel_step = self.step
+            was_dispatched = bool(s.call_steps)
+            others = [x for x in self.sends if x is not s and not x.fired and x.d is not None]
+            ProducerWorld.do_app(self, op)
+            from afkak.common import CancelledError as AfkakCancelled
+            from twisted.internet.defer import CancelledError
+            from twisted.python.failure import Failure
+            if not (s.fired and isinstance(s.result, Failure) and s.result.check(CancelledError, AfkakCancelled)):
+                self.viol("cancel", "cancel-does-not-fail-caller-with-cancelled-error",
+                          "cancel of send %d left it fired=%r result=%r" % (s.i, s.fired, s.result))
+            for x in others:
+                if x.fired:
+                    self.viol("cancel", "cancel-resolves-another-send",
+                              "cancelling send %d also resolved send %d with %r" % (s.i, x.i, x.result))
+            return
+        ProducerWorld.do_app(self, op)
+
+    def finish(self, horizon):
+        pass
+
+    def fingerprint(self):
+        from mc import fingerprint as fpmod
+        mon = [(s.i, s.fired, type(getattr(s.result, "value", s.result)).__name__, s.cancelled, len(s.call_steps))
+               for s in self.sends]
+        conns = [(c.cid, len(c.server.queue) if c.server else 0, c.client_closing) for c in self.net.open_conns()]
+        ignore = [self.net, self.clock, self.cluster, self.seam] + list(self.net.conns) + list(self.net.attempts)
+        calls = [round(c.getTime() - self.clock.seconds(), 9) for c in self.clock.pending()]
+        return fpmod.fingerprint((self.producer, mon, conns, calls, self.seam_pending, self.meta_pending,
+                                  sorted(self._sigs),
+                                  self.stop_called_step is not None), now=self.clock.seconds(), ignore=ignore)
